@@ -198,7 +198,7 @@ CHECKS = {
         ref="DESIGN.md §0.8, §6",
         note="Weakest binding of all checks: the numbers are delegated arithmetic (numpy builds the bell, the library estimates); "
              "TLC contributes the domain and the experiment plan. Selected frequency = fn and DF1 = one bandwidth are the "
-             "harness's choices. Quick 312 configurations, thorough a seeded sample of 30000 estimates of the finer grid.",
+             "harness's choices. Quick 512 configurations (exhaustive), thorough a seeded sample of 15000 estimates of the finer grid.",
         technique="TLC model checking of Bell.tla (claim domain) + replay of every in-claim configuration through EFDD_mpe / EFDD / FSDD",
     ),
     "C06": dict(
